@@ -5,6 +5,7 @@ import (
 	"go/ast"
 	"go/token"
 	"go/types"
+	"golang.org/x/tools/go/packages"
 	"sort"
 	"strings"
 )
@@ -804,5 +805,215 @@ func ruleFamilyRegisteredWhole(w *World, r *Report, rule string) {
 	}
 	if bad == 0 {
 		r.OK(rule, add.Name()+"#family-whole", add.Decl.Pos(), false, "%d calls in %d functions of the registration path examined: none turns a descriptor list into another one", calls, len(fns))
+	}
+}
+
+// ruleNoInPlaceOnShared: the in-place operations of the slices package (Delete,
+// DeleteFunc, Compact, CompactFunc, Insert, Replace, Reverse, Sort…) and the
+// `x[:0]` filter idiom rewrite the backing array of their operand (and zero the
+// tail). They are applied only to a slice the function built itself, or to the
+// owner's own field with the result stored back into that same field. Applied
+// to a parameter, to an alias of a field, or to a descriptor's / analysis
+// record's list they silently rewrite storage somebody else still reads: the
+// collection's descriptor list, a descriptor's dependency list (shared with the
+// analyzer's cache and read again by the next Build), the caller's variadic slice.
+func ruleNoInPlaceOnShared(w *World, r *Report, rule string) {
+	inPlace := map[string]bool{"Delete": true, "DeleteFunc": true, "Compact": true, "CompactFunc": true, "Insert": true, "Replace": true,
+		"Reverse": true, "Sort": true, "SortFunc": true, "SortStableFunc": true}
+	sites, bad := 0, 0
+	var pkgs []*packages.Package
+	pkgs = append(pkgs, w.Godi, w.Graph, w.Refl)
+	for _, m := range integrations {
+		if p := w.Integ[m]; p != nil {
+			pkgs = append(pkgs, p)
+		}
+	}
+	for _, p := range pkgs {
+		for _, fi := range w.FuncsOf(p) {
+			info := fi.Pkg.TypesInfo
+			fresh := func(e ast.Expr) bool {
+				e = resolveLocal(info, fi.Decl.Body, e, 3)
+				if ok, _ := freshDepth(info, fi, e, 2); ok {
+					return true
+				}
+				if c, isC := e.(*ast.CallExpr); isC {
+					if id, isId := unparen(c.Fun).(*ast.Ident); isId && id.Name == "append" && len(c.Args) > 0 {
+						a0 := unparen(c.Args[0])
+						if isNilIdent(info, a0) {
+							return true
+						}
+						if cc, ok := a0.(*ast.CallExpr); ok {
+							if tv, ok := info.Types[cc.Fun]; ok && tv.IsType() {
+								return true // []T(nil)
+							}
+							if ok, _ := freshCall(info, cc, 0, 2); ok {
+								return true
+							}
+						}
+						if _, ok := a0.(*ast.CompositeLit); ok {
+							return true
+						}
+					}
+					cal := callee(info, c)
+					if isFunc(cal, "slices", "", "Collect") || isFunc(cal, "slices", "", "Sorted") || isFunc(cal, "slices", "", "AppendSeq") || isFunc(cal, "maps", "", "Keys") {
+						return true
+					}
+				}
+				if _, ok := e.(*ast.CompositeLit); ok {
+					return true
+				}
+				return false
+			}
+			k := 0
+			report := func(pos token.Pos, op string, operand ast.Expr, assignedBack bool) {
+				sites++
+				if fresh(operand) {
+					return
+				}
+				if fv := plainFieldOf(info, operand); fv != nil && assignedBack {
+					return
+				}
+				bad++
+				k++
+				what := "a slice this function did not build"
+				if fv := plainFieldOf(info, operand); fv != nil {
+					what = "the field " + ownerOfFieldRaw(w, fv) + "." + fv.Name() + " (and the result is not stored back into it)"
+				} else if o := objOf(info, operand); o != nil && isParamOf(fi, info, o) {
+					what = "the parameter " + o.Name() + " (the caller's slice)"
+				}
+				r.Fail(rule, fmt.Sprintf("%s#in-place:%s/%d", fi.Name(), op, k), pos,
+					"%s rewrites %s in place: the backing array is compacted and its tail zeroed under every other holder of that slice (the collection's descriptor list, a descriptor's dependency list shared with the analysis cache, the caller's list of module options) - the first use looks right, the next Build or the next use of the caller's slice sees the damage", op, what)
+			}
+			ast.Inspect(fi.Decl.Body, func(x ast.Node) bool {
+				switch s := x.(type) {
+				case *ast.AssignStmt:
+					for i, rh := range s.Rhs {
+						// y := x[:0] - the filter idiom with a named alias (y = append(y, …) follows)
+						if sl, isSl := unparen(rh).(*ast.SliceExpr); isSl && sl.High != nil && sl.Low == nil {
+							if v, isC := constInt(info, sl.High); isC && v == 0 {
+								back := i < len(s.Lhs) && exprStr(s.Lhs[i]) == exprStr(sl.X)
+								report(sl.Pos(), "x[:0] reuse", sl.X, back)
+							}
+						}
+						c, ok := unparen(rh).(*ast.CallExpr)
+						if !ok {
+							continue
+						}
+						cal := callee(info, c)
+						if cal != nil && cal.Pkg() != nil && cal.Pkg().Path() == "slices" && inPlace[cal.Name()] && len(c.Args) > 0 {
+							back := i < len(s.Lhs) && exprStr(s.Lhs[i]) == exprStr(c.Args[0])
+							report(c.Pos(), "slices."+cal.Name(), c.Args[0], back)
+						}
+						// append(x[:0], …): the filter idiom
+						if id, isId := unparen(c.Fun).(*ast.Ident); isId && id.Name == "append" && len(c.Args) > 0 {
+							if sl, isSl := unparen(c.Args[0]).(*ast.SliceExpr); isSl && sl.High != nil {
+								if v, isC := constInt(info, sl.High); isC && v == 0 {
+									back := i < len(s.Lhs) && exprStr(s.Lhs[i]) == exprStr(sl.X)
+									report(c.Pos(), "append(x[:0], …)", sl.X, back)
+								}
+							}
+						}
+					}
+				case *ast.ExprStmt:
+					if c, ok := unparen(s.X).(*ast.CallExpr); ok {
+						cal := callee(info, c)
+						if cal != nil && cal.Pkg() != nil && (cal.Pkg().Path() == "slices" || cal.Pkg().Path() == "sort") && len(c.Args) > 0 &&
+							(inPlace[cal.Name()] || cal.Pkg().Path() == "sort") {
+							if _, isSlice := info.TypeOf(c.Args[0]).Underlying().(*types.Slice); isSlice {
+								report(c.Pos(), cal.Pkg().Name()+"."+cal.Name(), c.Args[0], plainFieldOf(info, c.Args[0]) != nil)
+							}
+						}
+					}
+				case *ast.ValueSpec:
+					for _, v := range s.Values {
+						if c, ok := unparen(v).(*ast.CallExpr); ok {
+							cal := callee(info, c)
+							if cal != nil && cal.Pkg() != nil && cal.Pkg().Path() == "slices" && inPlace[cal.Name()] && len(c.Args) > 0 {
+								report(c.Pos(), "slices."+cal.Name(), c.Args[0], false)
+							}
+						}
+					}
+				case *ast.RangeStmt:
+					if c, ok := unparen(s.X).(*ast.CallExpr); ok {
+						cal := callee(info, c)
+						if cal != nil && cal.Pkg() != nil && cal.Pkg().Path() == "slices" && inPlace[cal.Name()] && len(c.Args) > 0 {
+							report(c.Pos(), "slices."+cal.Name(), c.Args[0], false)
+						}
+					}
+				}
+				return true
+			})
+		}
+	}
+	if bad == 0 {
+		r.OK(rule, "repository#in-place-on-shared:none", token.NoPos, false, "%d in-place slice operations examined: each works on a slice its function built, or on the owner's own field with the result stored back", sites)
+	}
+}
+
+// ruleBuildOneCriticalSection: what Build validates is what it hands to the
+// provider. All the functions a Build runs take the collection's lock exactly
+// once: graph, validation and the snapshot of the registry views are read in
+// one critical section. Two sections (one to validate, one to snapshot) let a
+// registration made in between into the provider without ever having been
+// graphed or validated - a writer blocked on the lock is served exactly there.
+func ruleBuildOneCriticalSection(w *World, r *Report, rule string) {
+	named, st := w.Struct(w.Godi, "collection")
+	if named == nil {
+		r.Undecided(rule, "collection", token.NoPos, "struct collection not found")
+		return
+	}
+	var mu *types.Var
+	for i := 0; i < st.NumFields(); i++ {
+		if f := st.Field(i); isNamedType(f.Type(), "sync", "RWMutex") || isNamedType(f.Type(), "sync", "Mutex") {
+			mu = f
+		}
+	}
+	if mu == nil {
+		r.Undecided(rule, "collection#lock", named.Obj().Pos(), "the collection has no mutex field")
+		return
+	}
+	build := map[*FuncInfo]bool{}
+	var entry *FuncInfo
+	for _, fi := range w.FuncsOf(w.Godi) {
+		if rn := recvNamed(fi.Obj); rn != nil && rn.Obj() == named.Obj() && fi.Obj.Exported() && strings.HasPrefix(fi.Obj.Name(), "Build") {
+			for _, f := range w.Within(fi, 4) {
+				build[f] = true
+			}
+			if entry == nil || fi.Decl.Pos() < entry.Decl.Pos() {
+				entry = fi
+			}
+		}
+	}
+	if entry == nil {
+		r.Undecided(rule, "collection#Build", token.NoPos, "no Build method on the collection")
+		return
+	}
+	type acq struct {
+		fi  *FuncInfo
+		pos token.Pos
+		op  string
+	}
+	var acqs []acq
+	for fi := range build {
+		info := fi.Pkg.TypesInfo
+		for _, c := range callsIn(fi.Decl.Body, true) {
+			_, fld, op, ok := mutexOp(info, c)
+			if ok && fld == mu && (op == "Lock" || op == "RLock") {
+				acqs = append(acqs, acq{fi, c.Pos(), op})
+			}
+		}
+	}
+	sort.Slice(acqs, func(i, j int) bool { return acqs[i].pos < acqs[j].pos })
+	switch {
+	case len(acqs) == 1:
+		r.OK(rule, entry.Name()+"#one-critical-section", acqs[0].pos, false, "the %d functions a Build runs take collection.%s once (%s in %s): graph, validation and snapshot see one state of the registry", len(build), mu.Name(), acqs[0].op, acqs[0].fi.Name())
+	case len(acqs) == 0:
+		r.Fail(rule, entry.Name()+"#one-critical-section", entry.Decl.Pos(), "no function a Build runs takes collection.%s: the registry is read while registrations may change it", mu.Name())
+	default:
+		var where []string
+		for _, a := range acqs {
+			where = append(where, a.fi.Name()+" ("+a.op+" at "+w.Pos(a.pos)+")")
+		}
+		r.Fail(rule, entry.Name()+"#one-critical-section", acqs[1].pos, "the functions a Build runs take collection.%s %d times: %s. What is validated in one critical section and what is handed to the provider in another are two states of the registry: a registration that lands in between is served without having been graphed or validated (never constructed at Build, not checked for cycles or captive dependencies)", mu.Name(), len(acqs), strings.Join(where, ", "))
 	}
 }
